@@ -20,7 +20,7 @@ Require Import Aiuti.CaseLib Aiuti.FLock.
 Definition occ_entry := (nat * bool * nat * bool)%type.
 
 Inductive case :=
-| CSched (cfg : list (bool * tmo)) (fl : list (skind * nat)) (progs : list (list call))
+| CSched (cfg : list (bool * tmo)) (fl : list (skind * nat * bool)) (progs : list (list call))
          (trace : list (ev * nat)) (results : list (list result)) (occ : list occ_entry)
          (final : list nat) (endcode : nat) (kernel_mismatches : nat)
 | CProcs (nproc rounds : nat) (completed collisions errors : nat).
@@ -34,7 +34,7 @@ Definition occ_eqb (x y : occ_entry) : bool :=
   let '(t1, e1, n1, l1) := x in let '(t2, e2, n2, l2) := y in
   Nat.eqb t1 t2 && Bool.eqb e1 e2 && Nat.eqb n1 n2 && Bool.eqb l1 l2.
 
-Definition init_sched (cfg : list (bool * tmo)) (fl : list (skind * nat)) (progs : list (list call)) : state :=
+Definition init_sched (cfg : list (bool * tmo)) (fl : list (skind * nat * bool)) (progs : list (list call)) : state :=
   init (map (fun c => obj0 0 (fst c) (snd c)) cfg) (map (thr0 0) progs) fl.
 
 Definition count_inside (s : state) (nT : nat) : nat := length (filter (inside_b s) (seq 0 nT)).
@@ -90,17 +90,39 @@ Definition agree (c : case) : bool :=
   end.
 
 (* monitor: never two inside; whoever is inside holds the lock when it enters
-   and still holds it when it calls release.  A run in which some thread left the
-   property's contract (released a lock that ANOTHER thread holds: ghost flag viol of
-   the model replaying the same decisions) is not judged for occupancy; kernel/table
-   mismatches are judged always. *)
+   and still holds it when it calls release; and the log is self-consistent: read as
+   a sequence of enter / exit events it starts from nobody inside, only outsiders
+   enter, only insiders leave, and the reported number of threads inside is the size
+   of the set so obtained (so "n <= 1" really is "at no point two holders inside").
+   A run in which some thread left the property's contract (released a lock that
+   ANOTHER thread holds: ghost flag viol of the model replaying the same decisions) is
+   not judged for occupancy; kernel/table mismatches are judged always. *)
+Definition entry_ok (x : occ_entry) : bool :=
+  match x with (_, entering, n, locked) => (n <=? 1) && locked && (if entering then Nat.eqb n 1 else Nat.eqb n 0) end.
+
+Definition mem (t : nat) (l : list nat) : bool := existsb (Nat.eqb t) l.
+Definition del (t : nat) (l : list nat) : list nat := filter (fun x => negb (Nat.eqb x t)) l.
+
+(* the set of threads inside after one more event *)
+Definition occ_next (cur : list nat) (x : occ_entry) : list nat :=
+  match x with (t, entering, _, _) => if entering then t :: cur else del t cur end.
+
+Fixpoint occ_consistent (cur : list nat) (occ : list occ_entry) : bool :=
+  match occ with
+  | [] => true
+  | x :: r =>
+      (match x with (t, entering, n, _) =>
+         (if entering then negb (mem t cur) else mem t cur) && Nat.eqb n (length (occ_next cur x)) end)
+      && occ_consistent (occ_next cur x) r
+  end.
+
+Definition occ_ok (occ : list occ_entry) : bool := forallb entry_ok occ && occ_consistent [] occ.
+
 Definition ok (c : case) : bool :=
   match c with
   | CSched _ _ _ _ _ occ _ _ km =>
       let '(_, _, _, _, _, vi) := model_trace c in
-      (vi || forallb (fun x : occ_entry => match x with (_, entering, n, locked) =>
-                          (n <=? 1) && locked && (if entering then Nat.eqb n 1 else Nat.eqb n 0) end) occ)
-      && Nat.eqb km 0
+      (vi || occ_ok occ) && Nat.eqb km 0
   | CProcs _ _ _ collisions _ => Nat.eqb collisions 0
   end.
 
